@@ -34,7 +34,7 @@ ASSUMPTIONS = [
     'one of the two versions',
     'the child is created with fork() from an already initialised worker (no jax / grpc use in the child)',
 ]
-REQUIRED_COUNTERS = ['crash_points_hit', 'boundaries_counted', 'recoveries_checked', 'continue_probes_same_worker',
+REQUIRED_COUNTERS = ['answered_calls_checked_for_pending_writes', 'crash_points_hit', 'boundaries_counted', 'recoveries_checked', 'continue_probes_same_worker',
                      'continue_probes_new_worker', 'atomicity_checks', 'victim_kinds_covered']
 MIN_DISTINCT = {'quick': 300, 'thorough': 3000}
 
@@ -213,12 +213,39 @@ def fork_case(db_path, prefix, victim, kill_at, timeout=60):
   return out
 
 
+PENDING = {'checked': 0, 'found': []}
+
+
+def drain_pending(ctx, case):
+  ctx.count('answered_calls_checked_for_pending_writes', PENDING['checked'])
+  PENDING['checked'] = 0
+  for op, out, pend in PENDING['found'][:3]:
+    ctx.violation(f'acknowledged-write-not-committed:{op}',
+                  f'after {op} ({out}) was answered the SQLite file lacks changes the server already shows '
+                  f'(lost by a crash at any later instant): {pend}'[:500], case)
+  PENDING['found'].clear()
+
+
 def reference_state(tmp, calls, tag):
   """State after running `calls` without a crash (fresh file)."""
   from vv import service as S
   path = os.path.join(tmp, f'ref-{tag}.db')
+  for suffix in ('', '-journal', '-wal', '-shm'):
+    # a reference run always starts from an empty file
+    try:
+      os.remove(path + suffix)
+    except OSError:
+      pass
   sv, ctl = open_servicer(path)
-  outs = [do_call(sv, ctl, c)[0] for c in calls]
+  outs = []
+  for i, c in enumerate(calls):
+    outs.append(do_call(sv, ctl, c)[0])
+    # an answered call leaves nothing pending on the connection: what the server shows
+    # is what a second connection (a restarted server) finds in the file
+    PENDING['checked'] += 1
+    pend = S.uncommitted_writes(sv, path)
+    if pend:
+      PENDING['found'].append((c.get('op'), outs[-1], pend))
   snap = S.snapshot(sv, ['o', 'p'])
   try:
     sv.datastore._connection.close()
@@ -380,6 +407,7 @@ def run_item(ctx, tmp, pname, vname, only_k=None):
     ctx.count('victims_rejected_in_dry_run')
   without, _ = reference_state(tmp, prefix, 'without')
   with_, _ = reference_state(tmp, prefix + [victim], 'with')
+  drain_pending(ctx, {'prefix': pname, 'victim': vname, 'k': 0, 'reference_run': True})
   for f in ('ref-without.db', 'ref-with.db', 'dry.db'):
     try:
       os.remove(os.path.join(tmp, f))
